@@ -306,6 +306,11 @@ func (c14) Run(e *Env) {
 					mode = 4
 				}
 				out := HTTPOutcome{Kind: "serve"}
+				if r.Path == "/v2/raw" && mode != 4 {
+					// the bytes of a metrics body are not the same in every execution (protobuf map
+					// fields are written in Go map order), so neither is what a bit flip at offset n hits
+					e.Unstable("damage-applied-to-a-body-whose-bytes-follow-map-order")
+				}
 				switch mode {
 				case 0:
 					out.DamageBody = func(b []byte) []byte {
